@@ -110,7 +110,7 @@ def success_case(r, kind, state, api_mode, adjout=True):
         for p, nh, m in api_routes:
             steps.append(['api', f'peer * announce route {p} next-hop {nh} med {m}'])
         steps += [['sleep', 0.5], ['wait_quiet', 1.0, 20.0], ['policy', 'reset'], ['eof'], ['sleep', 1.0], ['snapshot', 'before'], ['mark', 'reload'], ['reload', new_text], ['sleep', 2.0], ['policy', 'accept'], ['accept', 60.0], ['mark', 'second'], ['establish'], ['wait_quiet', 2.0, 20.0], ['snapshot', 'after'], ['mark', 'end']]
-    return {'config': cfg, 'steps': steps, 'vtimeout': 400.0, 'wall': 120.0, 'quantum': 0.0005, 'kind': kind, 'state': state, 'api_mode': api_mode, 'old': old, 'new': new, 'api_routes': api_routes, 'expect': 'success', 'adjout': adjout, 'reestablish': hold_new != 90}
+    return {'config': cfg, 'steps': steps, 'vtimeout': 400.0, 'wall': 120.0, 'quantum': 0.0005, 'rx_limit': 70000, 'kind': kind, 'state': state, 'api_mode': api_mode, 'old': old, 'new': new, 'api_routes': api_routes, 'expect': 'success', 'adjout': adjout, 'reestablish': hold_new != 90}
 
 
 def broken_variants(text: str):
@@ -210,8 +210,10 @@ def table_from(sess_rx, t0):
     s = rw.sess(asn4=True, addpath=())
     n = 0
     for t, ty, body in sess_rx:
-        if ty != rw.UPDATE or t < t0 or '..' in body:
+        if ty != rw.UPDATE or t < t0:
             continue
+        if '..' in body:
+            raise rw.RefError(0, 0, 'record holds a truncated UPDATE body')
         d = rw.dec_update(bytes.fromhex(body), s)
         if d['eor']:
             continue
